@@ -73,10 +73,20 @@ func (p *c39Pers) Save(v *c39Param) (*Persisted[c39Param], error) {
 		c39Freeze()
 	}
 	p.obs.saves++
-	if p.sc.Faults && vsched.Deviate(2, "save.err") == 1 {
-		p.obs.saveErrs++
-		vsched.Logf("g%d save %d: error", p.gen, v.ID)
-		return nil, errC39Fault
+	if p.sc.Faults {
+		switch vsched.Deviate(3, "save.err") {
+		case 1:
+			p.obs.saveErrs++
+			vsched.Logf("g%d save %d: error", p.gen, v.ID)
+			return nil, errC39Fault
+		case 2:
+			// the write reached the disk, the error comes from what follows (final sync):
+			// an error is reported although the file stays behind
+			p.obs.saveErrs++
+			p.disk.put(c39File(v.ID), *v)
+			vsched.Logf("g%d save %d: error after the file was written", p.gen, v.ID)
+			return nil, errC39Fault
+		}
 	}
 	name := c39File(v.ID)
 	p.disk.put(name, *v)
